@@ -14,6 +14,7 @@ def plan(tier, seed):
     jobs.append(ch("C02", G, "h_multi_append", t, ["writer.write_multi", "writer.make_part_file",
                                                    "writer.write_common_metadata", "writer.find_max_part"]))
     jobs.append(ch("C02", H, "h_levels_no_nulls", t, ["writer.make_definitions", "core.skip_definition_bytes"]))
+    jobs.append(ch("C02", H, "h_levels_with_nulls", t, ["writer.make_definitions (pages with NULLs)"]))
     jobs.append(dict(name="C02-lemma-dict-index-framing", kind="pyfunc", timeout=300,
                      payload=dict(func="vf.pyshim.lemmas:dict_index_framing")))
     # B2: wire conformance of every metadata structure the writer emits (footer, row groups, chunks, page headers):
